@@ -419,6 +419,7 @@ uint64_t vk_vcall_n(void *fn, const char *name, int nargs, ...)
 	for (int i = 0; i < 16; i++) e->args[i] = i < nargs ? va_arg(ap, uint64_t) : ((e->mode & VC_POISON_REGS) ? vk_mix(vk_call_poison + i) : 0);
 	va_end(ap);
 	e->nstack = nargs > 6 ? nargs - 6 : 0;
+	e->skew = (uint32_t)(vk_mix(vk_ncalls * 0x9e3779b97f4a7c15ULL + 5) >> 17) & 3;   /* deterministic, but uncorrelated with the loop structure of the sweeps */
 	vk_cur_fn = name;
 	vk_ncalls++;
 	if (vk_trace_on) tr_set_name(name);
@@ -445,7 +446,7 @@ unsigned vk_abi_check(const char *ctx)
 	if (bad) {
 		char key[256];
 		snprintf(key, sizeof key, "%s:%s", vk_cur_fn, what);
-		vk_violation("C19", key, NULL, "callee-saved state not preserved by %s: %s(%s)", vk_cur_fn, what, ctx ? ctx : "");
+		vk_violation("C19", key, NULL, "callee-saved state not preserved by %s: %s(%s; caller rsp mod 64 = %u at the call)", vk_cur_fn, what, ctx ? ctx : "", (unsigned)(e->exp_rsp & 63));
 	}
 	return bad;
 }
